@@ -1382,7 +1382,7 @@ pub fn run_deep(prop: &'static str, depth: usize) -> Result<u64, (String, String
         obs += 5;
     }
     // ---- removals of deep subtrees
-    if matches!(prop, "C04" | "C05" | "C02" | "C08" | "C12") {
+    if matches!(prop, "C04" | "C05" | "C02" | "C08" | "C12" | "C07") {
         let cut = 3 * depth / 4;
         let before_removed = a.iter().filter(|n| n.is_removed()).count();
         ids[cut].remove_subtree(&mut a);
@@ -1399,6 +1399,23 @@ pub fn run_deep(prop: &'static str, depth: usize) -> Result<u64, (String, String
             if n.parent().is_some() || n.first_child().is_some() || n.next_sibling().is_some() {
                 bail!("deep-removed-links", "a node removed with the deep subtree still reports links");
             }
+        }
+        // tens of thousands of slots are free now: allocation must recycle them, one by one
+        if prop == "C07" {
+            let n0 = a.count();
+            let mut seen = std::collections::HashSet::new();
+            for i in 0..2000u64 {
+                let id = a.new_node(p(6_000_000 + i));
+                if a.count() != n0 || !seen.insert(usize::from(id)) {
+                    bail!("deep-recycle", "with {} slots free, allocation #{} grew the arena or returned a slot twice", expect, i);
+                }
+            }
+            // and freeing again with a long free list
+            let more: Vec<NodeId> = seen.iter().map(|s| a.get_node_id_at(std::num::NonZeroUsize::new(*s).unwrap()).unwrap()).collect();
+            for id in more {
+                id.remove(&mut a);
+            }
+            obs += 2;
         }
         // remove (splice) in the middle of the path, then the whole rest
         ids[depth / 4].remove(&mut a);
